@@ -498,7 +498,7 @@ func (g *Gen) versSynth(p *prng, name string, f *family) [][2]string {
 	clean := func(s string) string { return strings.TrimSpace(s) }
 	n := p.rng(1, 4)
 	if p.chance(1, 4) {
-		n = p.rng(8, 26) // long constraint lists take their own paths
+		n = p.rng(4, 26) // long constraint lists take their own paths
 	}
 	var parts []string
 	var used []string
@@ -576,6 +576,20 @@ func (g *Gen) versSynth(p *prng, name string, f *family) [][2]string {
 			b := append([]string{tie}, parts...)
 			texts = append(texts, strings.Join(a, "|"), strings.Join(b, "|"))
 		}
+	}
+	// malformed variants: a clause that lost its operator (a bare version, legal
+	// in the VERS grammar's prose and rejected here) or its version, somewhere
+	// after the first clause; the call fails, but only after the earlier clauses
+	// went through whatever machinery a list of this length uses
+	if len(parts) >= 2 && p.chance(1, 3) {
+		bad := append([]string(nil), parts...)
+		i := 1 + p.n(len(bad)-1)
+		if p.chance(1, 2) {
+			bad[i] = strings.TrimLeft(bad[i], "<>=!")
+		} else {
+			bad[i] = bad[i][:len(bad[i])-len(strings.TrimLeft(bad[i], "<>=!"))]
+		}
+		texts = append(texts, strings.Join(bad, "|"))
 	}
 	var out [][2]string
 	for _, s := range schemes {
